@@ -1,7 +1,7 @@
 SPECIFICATION Spec
 CONSTANTS
-  MaxPeer = 6
-  MaxLocal = 5
+  MaxPeer = 5
+  MaxLocal = 4
   MaxObj = 3
   Configs <- HoldConfigs
   Lite = TRUE
